@@ -105,6 +105,7 @@ func RunFaults(e *Env) {
 	}
 	wg.Wait()
 	RunStorm(e, "C07")
+	runCorrFlap(e, "C07")
 }
 
 func unavailableType(line string) bool {
